@@ -57,6 +57,24 @@ pub fn build_case(seed: u64, case: u64) -> FaultCase {
     p.max_ops = 28;
     p.snap_slots = 2;
     let mut history = ops::gen_history(&mut rng, &p, &uni, &cfg.thresholds());
+    if blob && rng.chance(1, 2) {
+        // a blob file that is dead but still listed when the next merge runs (dead files leave the version one
+        // merge late): overwrite a separated value, merge, then merge again - with faults in either merge
+        let big = cfg.kv.as_ref().map_or(64, |k| k.threshold as usize + 8);
+        let (k, j) = (rng.usize(uni.keys.len().max(1)), rng.usize(uni.keys.len().max(1)));
+        let m = vec![
+            Op::Put { k, vlen: big },
+            Op::Flush { rotate: true, wm: 0 },
+            Op::Put { k, vlen: big + 1 },
+            Op::Flush { rotate: true, wm: 0 },
+            Op::Major { target: u64::MAX, wm: 1000 },
+            Op::Put { k: j, vlen: big },
+            Op::Flush { rotate: true, wm: 0 },
+            Op::Major { target: u64::MAX, wm: 1000 },
+        ];
+        let pos = rng.usize(history.len() + 1);
+        history.splice(pos..pos, m);
+    }
     for op in &mut history {
         match op {
             Op::Put { vlen, .. } => *vlen = (*vlen).min(200),
